@@ -38,6 +38,16 @@ type holder struct {
 	done   chan error
 }
 
+// namesPid: the refusal names the holder - its pid appears as a number of its own in the message (the wording is free)
+func namesPid(msg string, pid int) bool {
+	for _, f := range strings.FieldsFunc(msg, func(r rune) bool { return r < '0' || r > '9' }) {
+		if f == strconv.Itoa(pid) {
+			return true
+		}
+	}
+	return false
+}
+
 func lockContent(dir string) string {
 	b, err := os.ReadFile(filepath.Join(dir, ".git", "git-bug", "lock"))
 	if err != nil {
@@ -150,7 +160,7 @@ func run(gitbug string, s Schedule) string {
 					holders[st.H] = h
 					return fmt.Sprintf("step %d Open(%d): specification: refused while pid %d holds the lock; a second process opened the cache", i+1, st.H, pidOf(st.By))
 				}
-				if !strings.Contains(eb.String(), fmt.Sprintf("already locked by the process pid %d", pidOf(st.By))) {
+				if !namesPid(eb.String(), pidOf(st.By)) {
 					return fmt.Sprintf("step %d Open(%d): refusal does not name the holder (pid %d): %s", i+1, st.H, pidOf(st.By), eb.String())
 				}
 				if lockContent(dir) != before {
@@ -196,10 +206,10 @@ func run(gitbug string, s Schedule) string {
 				_ = exec.Command("git", "-C", dir, "config", "--local", "git-bug.identity", a.Id().String()).Run()
 			}
 			failed := err != nil
-			locked := strings.Contains(string(out), "already locked by the process pid")
+			locked := strings.Contains(string(out), "locked")
 			switch st.Out {
 			case "refused":
-				if !failed || !strings.Contains(string(out), fmt.Sprintf("already locked by the process pid %d", pidOf(st.By))) {
+				if !failed || !namesPid(string(out), pidOf(st.By)) {
 					return fmt.Sprintf("step %d Cmd(%s): specification: refused, naming pid %d; got exit error=%v output %q", i+1, st.Kind, pidOf(st.By), failed, string(out))
 				}
 				if lockContent(dir) != before {
